@@ -105,7 +105,7 @@ def show(e, depth=0):
             return 'b[..]'
     if k == 'fn':
         return 'fn:' + e[1]
-    if k == 'var':
+    if k in ('var', 'mvar'):
         return e[1]
     if k == 'tmp':
         return '_%d' % e[1]
@@ -163,6 +163,8 @@ def walk(e):
         sub = list(e[1])
     elif k == 'closure':
         sub = list(e[2])
+    elif k == 'mvar':
+        sub = [e[2]] if e[2] is not None else []
     else:
         sub = []
     for s in sub:
@@ -313,6 +315,26 @@ class Fn:
             self._partial = part
         return self._defs.get(l, [])
 
+    def mutable_locals(self):
+        """named locals that hold mutable state: `&mut x` is taken, or x is assigned in parts.
+        Their initialiser does not describe their value at a later use, so expressions name them
+        instead of inlining their definition."""
+        if hasattr(self, '_mutl'):
+            return self._mutl
+        m = set()
+        self.defs(0)
+        for l in self._partial:
+            if l in self._localnames:
+                m.add(l)
+        for b in self.blocks:
+            for s in b['s']:
+                if s['k'] == 'assign' and s['rv']['k'] == 'ref' and s['rv'].get('mut'):
+                    p = s['rv']['place']
+                    if not any(x['k'] == 'deref' for x in p.get('p', [])) and p['l'] in self._localnames:
+                        m.add(p['l'])
+        self._mutl = m
+        return m
+
     def partial_defs(self, l):
         self.defs(0)
         return self._partial.get(l, [])
@@ -342,6 +364,11 @@ class Fn:
         ds = self.defs(l)
         name = self._localnames.get(l)
         seen2 = seen | {l}
+        if name and l in self.mutable_locals() and not name.startswith('__'):
+            init = None
+            if len(ds) == 1:
+                init = self._expr_def(ds[0], seen2)
+            return ('mvar', name, init)
         if len(ds) == 1:
             return self._expr_def(ds[0], seen2)
         if len(ds) == 0:
@@ -1012,7 +1039,7 @@ def access_path(e):
     while guard < 80:
         guard += 1
         k = e[0]
-        if k == 'var':
+        if k in ('var', 'mvar'):
             parts.append(e[1])
             return '.'.join(reversed(parts))
         if k == 'field':
@@ -1044,6 +1071,13 @@ def access_path(e):
             return None
         return None
     return None
+
+
+def init_of(e):
+    """initialiser of a named mutable local (`let mut t = f(); t.tick()` -> f())"""
+    while e[0] == 'mvar' and e[2] is not None:
+        e = e[2]
+    return e
 
 
 def root_var(e):
